@@ -4,7 +4,7 @@ F=$1; FROM=${2:-1}; N=${3:-1000}; W=${4:-16}
 OUT=/tmp/batch_$F; rm -rf $OUT; mkdir -p $OUT
 PER=$(( (N + W - 1) / W ))
 for i in $(seq 0 $((W-1))); do
-  /verif/build/simc worker --focus $F --from $((FROM + i)) --count $PER --stride $W > $OUT/w$i.out 2>&1 &
+  ${SIMC:-/verif/build/simc} worker --focus $F --from $((FROM + i)) --count $PER --stride $W > $OUT/w$i.out 2>&1 &
 done
 wait
 cat $OUT/w*.out | python3 -c "
